@@ -108,4 +108,8 @@ theorem src_unknown_modes_and_alpha_reach_their_checks :
     Gen.crossAlphaAssignments = ["self._process_parameter('alpha', alpha, 1.0)", "[float(a) for a in alpha]"] ∧
     Gen.crossWhitener1.lookup "alpha" = some "alpha[0]" ∧ Gen.crossWhitener2.lookup "alpha" = some "alpha[1]" := by decide
 
+/-- source obligation: the cross-set reconstruction also selects the components by the scores' mode labels (unknown labels raise) -/
+theorem src_cross_unknown_modes_reach_their_check :
+    Gen.cpccaInverseCompsExpr = ["self.data['components1'].sel(mode=X.mode)", "self.data['components2'].sel(mode=Y.mode)"] := by decide
+
 end C17
